@@ -157,6 +157,27 @@ def run(repo: Repo) -> Result:
             env = {st.targets[0].id: st.value for st in walk_no_nested(target.node) if isinstance(st, ast.Assign) and len(st.targets) == 1 and isinstance(st.targets[0], ast.Name)}
             rets = [r.value for r in walk_no_nested(target.node) if isinstance(r, ast.Return) and r.value is not None]
             body = rets[0] if len(rets) == 1 else None
+        def is_match_text0(e) -> bool:
+            if isinstance(e, ast.Name) and e.id in env:
+                e = env[e.id]
+            return isinstance(e, ast.Call) and callee_name(e) == "group" and is_name(call_recv(e), param) and (not e.args or (isinstance(e.args[0], ast.Constant) and e.args[0].value == 0))
+
+        if body is None and param is not None and not isinstance(fn_expr, ast.Lambda) and len(rets) == 2:
+            # the same conditional written as statements: `if len(<match text>) > 1: return <match
+            # text>` and `return "%%"` under its negation
+            from ..guards import canon as _c26, exits as _exits26
+
+            ex = [e_ for e_ in _exits26(target.node, resolve_locals=False) if e_.kind == "return"]
+            keep = [e_ for e_ in ex if is_match_text0(e_.node.value)]
+            dbl = [e_ for e_ in ex if isinstance(e_.node.value, ast.Constant) and e_.node.value.value == "%%"]
+
+            def longer_cond(c) -> bool:
+                return isinstance(c, ast.Compare) and len(c.ops) == 1 and isinstance(c.ops[0], ast.Gt) and isinstance(c.left, ast.Call) and is_name(c.left.func, "len") and is_match_text0(c.left.args[0]) and isinstance(c.comparators[0], ast.Constant) and c.comparators[0].value == 1
+
+            def not_longer_cond(c) -> bool:
+                return isinstance(c, ast.Compare) and len(c.ops) == 1 and isinstance(c.ops[0], ast.LtE) and isinstance(c.left, ast.Call) and is_name(c.left.func, "len") and is_match_text0(c.left.args[0]) and isinstance(c.comparators[0], ast.Constant) and c.comparators[0].value == 1
+
+            return len(ex) == 2 and len(keep) == 1 and len(dbl) == 1 and any(longer_cond(c) for c in keep[0].conds) and any(not_longer_cond(c) or (isinstance(c, ast.UnaryOp) and longer_cond(c.operand)) for c in dbl[0].conds)
         if body is None or param is None or not isinstance(body, ast.IfExp):
             return False
 
@@ -286,9 +307,32 @@ def run(repo: Repo) -> Result:
     p_vars = [st.targets[0].id for st in walk_no_nested(tr.node) if isinstance(st, ast.Assign) and len(st.targets) == 1 and isinstance(st.targets[0], ast.Name) and isinstance(st.value, ast.Call) and callee_name(st.value) == "pop" and is_name(call_recv(st.value), "kwargs")]
     ok_pl = False
     if len(n_vars) == 1 and len(p_vars) >= 1:
-        for n_ in walk_no_nested(tr.node):
-            if isinstance(n_, ast.If) and {_canon(c) for c in _conjuncts(n_.test)} == {f"{p_vars[0]} is not None", f"{n_vars[0]} is not None"}:
-                ok_pl = True
+        # path conditions: the plural lookups run exactly where both are `is not None`, the singular
+        # lookups exactly where that is ruled out (whichever way round the branches are written)
+        from ..guards import conditions as _conds26
+
+        both = {f"{p_vars[0]} is not None", f"{n_vars[0]} is not None"}
+        neither = {f"{p_vars[0]} is None", f"{n_vars[0]} is None"}
+        n_pl = n_sg = 0
+        ok_pl = True
+        for st26, cs26 in _conds26(tr.node):
+            if isinstance(st26, (ast.If, ast.For, ast.While, ast.With, ast.Try)):
+                continue
+            have = {_canon(c) for c in cs26}
+            for c26 in ast.walk(st26):
+                if isinstance(c26, ast.Call) and isinstance(c26.func, ast.Attribute) and isinstance(c26.func.value, ast.Name) and c26.func.value.id != "self":
+                    if callee_name(c26) in ("ngettext", "npgettext"):
+                        n_pl += 1
+                        ok_pl = ok_pl and both <= have
+                    elif callee_name(c26) in ("gettext", "pgettext"):
+                        n_sg += 1
+                        ruled_out = bool(have & neither) or any(
+                            (isinstance(c, ast.BoolOp) and isinstance(c.op, ast.Or) and {_canon(v) for v in c.values} == neither)
+                            or (isinstance(c, ast.UnaryOp) and isinstance(c.op, ast.Not) and {_canon(v) for v in _conjuncts(c.operand)} == both)
+                            for c in cs26
+                        )
+                        ok_pl = ok_pl and ruled_out
+        ok_pl = ok_pl and n_pl >= 1 and n_sg >= 1
     if not ok_pl:
         res.add("C26-COUNT", tr.qual, "plural-test", "the t filter must choose the plural form when `plural is not None and n is not None`", tr.file, tr.line)
     for c in calls(tr.node):
